@@ -198,7 +198,11 @@ package operator
 //@ func (peersMap).IDs
 //@   props C08
 //@   ensures [only-keys] forall i :: {result[i]} 0 <= i && i < len(result) ==> in(pm, result[i])
-//@   loop 1 invariant fresharray(ids) && (forall i :: {ids[i]} 0 <= i && i < len(ids) ==> in(pm, ids[i]))
+//@   ensures [each-key-once] forall i, j :: {result[i], result[j]} 0 <= i && i < j && j < len(result) ==> result[i] != result[j]
+//@   ensures [every-key] forall s uint64 :: {in(pm, s)} in(pm, s) ==> exists i :: 0 <= i && i < len(result) && result[i] == s
+//@   loop 1 invariant fresharray(ids) && (forall i :: {ids[i]} 0 <= i && i < len(ids) ==> in(pm, ids[i]) && visited(pm, ids[i]))
+//@   loop 1 invariant forall i, j :: {ids[i], ids[j]} 0 <= i && i < j && j < len(ids) ==> ids[i] != ids[j]
+//@   loop 1 invariant forall s uint64 :: {visited(pm, s)} visited(pm, s) ==> exists i :: 0 <= i && i < len(ids) && ids[i] == s
 //@   modifies nothing
 //@ func (*Builder).comparePlan
 //@   assumed
